@@ -356,6 +356,7 @@ func c18ConcurrentX(bodyIdx []int, hangup bool, b Bounds) *Scenario {
 					})
 				}
 				j.Wait()
+				vs.AwaitQuiescence()
 				br.Close()
 			}
 			check := func(x *vs.Exec) []Viol {
@@ -365,6 +366,25 @@ func c18ConcurrentX(bodyIdx []int, hangup bool, b Bounds) *Scenario {
 				}
 				for c, k := range bodyIdx {
 					if hangup && c == 0 {
+						// what the caller that went away receives is its own business, but its valid requests
+						// were posted: each still runs its handler exactly once
+						var want, got []string
+						for _, m := range mk(c, k).members {
+							if m.Kind == "call" || m.Kind == "note" {
+								want = append(want, m.Tag)
+							}
+						}
+						for _, t := range tags {
+							if strings.HasSuffix(t, fmt.Sprintf("-c%d", c)) {
+								got = append(got, t)
+							}
+						}
+						sort.Strings(want)
+						sort.Strings(got)
+						Hit("C18.R5")
+						if strings.Join(want, ",") != strings.Join(got, ",") {
+							v = append(v, Viol{"C18.R5", fmt.Sprintf("caller %d went away after posting: handlers ran for %v, its valid requests were %v (each exactly once)", c, got, want)})
+						}
 						continue
 					}
 					bd := mk(c, k)
